@@ -1,5 +1,6 @@
 SPECIFICATION Spec
 CONSTANTS N = 6
           MaxPerm = 3
+          Repeats = TRUE
           Emit = TRUE
 INVARIANT MapsExactly
